@@ -491,98 +491,13 @@ func c13RefParse(ms []c13Member, x c13ParseCase) (u uint8, inc bool, ok bool, am
 
 func TestVerif_C13(t *testing.T) {
 	vx.Run(t, "C13", func(c *vx.Ctx) {
-		c.Rule("SEQ: every contract-respecting history of length <= depth on a fresh RFC 9218 scheduler (streams 1,3,5 opened in order with priority in {u3, u3i, u0, u7i}; AdjustStream to the same four on open streams and on not-yet-opened ones; DATA of 6 bytes with maxFrameSize 4 and initial stream window 8; win(s,-100) blocks a stream and win(s,+100) re-arms it; close; control frame; Pop), from the empty scheduler, from 'stream 1 open (u3) with one DATA frame' and from each of the 64 seeds 'three open streams with priorities in {u3,u3i,u0,u7i}^3, each holding one DATA frame'; every history ends in a monitored drain. LASSO: every seed (3 open streams, priority in {u0,u0i,u3,u3i}^3, 400 bytes queued each, initial window in {0,large}^3) x prefix (<= p ops) x cycle (<= 3 ops, at least one Pop) over {Pop, win(s,+4), data(s,4), control}, cycle repeated R=16 times. Monitor on every Pop of a stream frame: no stream with a smaller urgency value had a sendable head; a non-incremental stream that was served stays the only non-incremental stream of its urgency served while it remains sendable; a continuously sendable stream is not passed over by more than 2 x (streams of its urgency) consecutive Pops of its urgency (incremental streams individually, non-incremental streams as a class). IN: parseRFC9218Priority on every dictionary of <= 3 members over 25 members x 2 separators x canUseDefault. Non-trivial = history with at least one checked Pop / field that was parsed and compared")
+		c.Rule("SEQ: every contract-respecting history of length <= depth on a fresh RFC 9218 scheduler (streams 1,3,5 opened in order with priority in {u3, u3i, u0, u7i}; AdjustStream to the same four on open streams and on not-yet-opened ones; DATA of 6 bytes with maxFrameSize 4 and initial stream window 8; win(s,-100) blocks a stream and win(s,+100) re-arms it; close; control frame; Pop), from the empty scheduler, from 'stream 1 open (u3) with one DATA frame' and from each of the seeds 'three open streams with priorities in {u3,u3i,u0}^3 (thorough: {u3,u3i,u0,u7i}^3), each holding one DATA frame'; every history ends in a monitored drain. LASSO: every seed (3 open streams, priority in {u0,u0i,u3,u3i}^3, 400 bytes queued each, initial window in {0,large}^3) x prefix (<= p ops) x cycle (<= 3 ops, at least one Pop) over {Pop, win(s,+4), data(s,4), control}, cycle repeated R=16 times. Monitor on every Pop of a stream frame: no stream with a smaller urgency value had a sendable head; a non-incremental stream that was served stays the only non-incremental stream of its urgency served while it remains sendable; a continuously sendable stream is not passed over by more than 2 x (streams of its urgency) consecutive Pops of its urgency (incremental streams individually, non-incremental streams as a class). IN: parseRFC9218Priority on every dictionary of <= 3 members over 25 members x 2 separators x canUseDefault. Non-trivial = history with at least one checked Pop / field that was parsed and compared")
 		c.Assume("PRIORITY_UPDATE buffering: histories keep at most one update buffered for a not-yet-opened stream at a time and send none for closed streams (RFC 9218 lets an endpoint limit buffering; the scheduler documents a single most-recent slot)")
 		c.Assume("bounded-wait counters restart at every OpenStream/CloseStream/AdjustStream and whenever the waiting stream is not sendable; the bound is 2 x number of open streams of that urgency")
 		c.Assume("parse: a dictionary in which a valid u/i member is followed by an invalid duplicate of the same key (e.g. 'u=1, u=9') is excluded: RFC 8941 'last one wins' + RFC 9218 'ignore out-of-range' can be read both ways")
 		defer c12Ballast()()
 
-		// --- SEQ from the empty scheduler
 		ids := []uint32{1, 3, 5}
-		{
-			ops := c13SeqOps(ids, true)
-			depth := vx.Pick(c, 4, 5)
-			c.Note("seq/from-empty.depth", depth)
-			c.Note("seq/from-empty.alphabet", len(ops))
-			// the second seed spends the depth on the second stream (buffered
-			// PRIORITY_UPDATE before its OpenStream, then data and Pops)
-			seeds := [][]c12Op{nil, {{K: c12Open, S: 1, P: c12Prio{U: 3}}, {K: c12Data, S: 1, N: 6}}}
-			vx.Enumerate(c, "seq/from-empty", vx.Opts{}, func(yield func(c13SeqCase) bool) {
-				for l := 1; l <= depth; l++ {
-					for _, seed := range seeds {
-						if !c13GenSeqs(ids, seed, ops, l, func(o []c12Op) bool { return yield(c13SeqCase{Ops: o}) }) {
-							return
-						}
-					}
-				}
-			}, func(w *vx.W, x c13SeqCase) { c13RunSeq(w, c13SeqEnv, x.Ops, -1) })
-		}
-		// --- SEQ from three open streams
-		{
-			ops := c13SeqOps(ids, false)
-			depth := vx.Pick(c, 3, 4)
-			c.Note("seq/three-open.depth", depth)
-			c.Note("seq/three-open.alphabet", len(ops))
-			vx.Enumerate(c, "seq/three-open", vx.Opts{}, func(yield func(c13SeqCase) bool) {
-				for l := 1; l <= depth; l++ {
-					for _, p1 := range c13Prios {
-						for _, p3 := range c13Prios {
-							for _, p5 := range c13Prios {
-								seed := []c12Op{
-									{K: c12Open, S: 1, P: p1}, {K: c12Open, S: 3, P: p3}, {K: c12Open, S: 5, P: p5},
-									{K: c12Data, S: 1, N: 6}, {K: c12Data, S: 3, N: 6}, {K: c12Data, S: 5, N: 6}}
-								if !c13GenSeqs(ids, seed, ops, l, func(o []c12Op) bool { return yield(c13SeqCase{Ops: o}) }) {
-									return
-								}
-							}
-						}
-					}
-				}
-			}, func(w *vx.W, x c13SeqCase) { c13RunSeq(w, c13SeqEnv, x.Ops, -1) })
-		}
-		// --- LASSO
-		{
-			lops := c13LassoOps()
-			lprios := []c12Prio{{U: 0}, {U: 0, I: true}, {U: 3}, {U: 3, I: true}}
-			maxPrefix := vx.Pick(c, 0, 2)
-			const R = 16
-			c.Note("lasso.prefix_max", maxPrefix)
-			c.Note("lasso.cycle_max", 3)
-			c.Note("lasso.R", R)
-			c.Note("lasso.alphabet", len(lops))
-			vx.Enumerate(c, "lasso", vx.Opts{NoSample: false}, func(yield func(c13Lasso) bool) {
-				var prefixes, cycles [][]c12Op
-				vx.Strings(lops, 0, maxPrefix, func(s []c12Op) bool { prefixes = append(prefixes, s); return true })
-				vx.Strings(lops, 1, 3, func(s []c12Op) bool {
-					for _, op := range s {
-						if op.K == c12Pop {
-							cycles = append(cycles, s)
-							break
-						}
-					}
-					return true
-				})
-				// shortest lassos first
-				for _, cyc := range cycles {
-					for _, pre := range prefixes {
-						for wi := 0; wi < 8; wi++ {
-							for pi := 0; pi < 64; pi++ {
-								x := c13Lasso{Prefix: pre, Cycle: cyc, R: R}
-								for k := 0; k < 3; k++ {
-									x.Prio[k] = lprios[(pi>>(2*k))&3]
-									if wi>>k&1 == 0 {
-										x.Window[k] = 1 << 20
-									}
-								}
-								if !yield(x) {
-									return
-								}
-							}
-						}
-					}
-				}
-			}, c13RunLasso)
-		}
 		// --- IN
 		{
 			ms := c13Members()
@@ -638,6 +553,93 @@ func TestVerif_C13(t *testing.T) {
 					w.Outcome("parse:unparsable")
 				}
 			})
+		}
+		// --- LASSO
+		{
+			lops := c13LassoOps()
+			lprios := []c12Prio{{U: 0}, {U: 0, I: true}, {U: 3}, {U: 3, I: true}}
+			maxPrefix := vx.Pick(c, 0, 2)
+			const R = 16
+			c.Note("lasso.prefix_max", maxPrefix)
+			c.Note("lasso.cycle_max", 3)
+			c.Note("lasso.R", R)
+			c.Note("lasso.alphabet", len(lops))
+			vx.Enumerate(c, "lasso", vx.Opts{NoSample: false}, func(yield func(c13Lasso) bool) {
+				var prefixes, cycles [][]c12Op
+				vx.Strings(lops, 0, maxPrefix, func(s []c12Op) bool { prefixes = append(prefixes, s); return true })
+				vx.Strings(lops, 1, 3, func(s []c12Op) bool {
+					for _, op := range s {
+						if op.K == c12Pop {
+							cycles = append(cycles, s)
+							break
+						}
+					}
+					return true
+				})
+				// shortest lassos first
+				for _, cyc := range cycles {
+					for _, pre := range prefixes {
+						for wi := 0; wi < 8; wi++ {
+							for pi := 0; pi < 64; pi++ {
+								x := c13Lasso{Prefix: pre, Cycle: cyc, R: R}
+								for k := 0; k < 3; k++ {
+									x.Prio[k] = lprios[(pi>>(2*k))&3]
+									if wi>>k&1 == 0 {
+										x.Window[k] = 1 << 20
+									}
+								}
+								if !yield(x) {
+									return
+								}
+							}
+						}
+					}
+				}
+			}, c13RunLasso)
+		}
+		// --- SEQ from the empty scheduler
+		{
+			ops := c13SeqOps(ids, true)
+			depth := vx.Pick(c, 4, 5)
+			c.Note("seq/from-empty.depth", depth)
+			c.Note("seq/from-empty.alphabet", len(ops))
+			// the second seed spends the depth on the second stream (buffered
+			// PRIORITY_UPDATE before its OpenStream, then data and Pops)
+			seeds := [][]c12Op{nil, {{K: c12Open, S: 1, P: c12Prio{U: 3}}, {K: c12Data, S: 1, N: 6}}}
+			vx.Enumerate(c, "seq/from-empty", vx.Opts{}, func(yield func(c13SeqCase) bool) {
+				for l := 1; l <= depth; l++ {
+					for _, seed := range seeds {
+						if !c13GenSeqs(ids, seed, ops, l, func(o []c12Op) bool { return yield(c13SeqCase{Ops: o}) }) {
+							return
+						}
+					}
+				}
+			}, func(w *vx.W, x c13SeqCase) { c13RunSeq(w, c13SeqEnv, x.Ops, -1) })
+		}
+		// --- SEQ from three open streams
+		{
+			ops := c13SeqOps(ids, false)
+			depth := vx.Pick(c, 3, 4)
+			seedPrios := vx.Pick(c, c13Prios[:3], c13Prios)
+			c.Note("seq/three-open.seeds", len(seedPrios)*len(seedPrios)*len(seedPrios))
+			c.Note("seq/three-open.depth", depth)
+			c.Note("seq/three-open.alphabet", len(ops))
+			vx.Enumerate(c, "seq/three-open", vx.Opts{}, func(yield func(c13SeqCase) bool) {
+				for l := 1; l <= depth; l++ {
+					for _, p1 := range seedPrios {
+						for _, p3 := range seedPrios {
+							for _, p5 := range seedPrios {
+								seed := []c12Op{
+									{K: c12Open, S: 1, P: p1}, {K: c12Open, S: 3, P: p3}, {K: c12Open, S: 5, P: p5},
+									{K: c12Data, S: 1, N: 6}, {K: c12Data, S: 3, N: 6}, {K: c12Data, S: 5, N: 6}}
+								if !c13GenSeqs(ids, seed, ops, l, func(o []c12Op) bool { return yield(c13SeqCase{Ops: o}) }) {
+									return
+								}
+							}
+						}
+					}
+				}
+			}, func(w *vx.W, x c13SeqCase) { c13RunSeq(w, c13SeqEnv, x.Ops, -1) })
 		}
 	})
 }
